@@ -35,12 +35,14 @@ type CInv struct {
 }
 
 type C14Case struct {
-	DotRoot bool     `json:"dot_root,omitempty"` // the CRS root directory itself is named .crs
+	DotRoot bool `json:"dot_root,omitempty"` // the CRS root directory itself is named .crs
 	// ViaLink: the -d argument is a symbolic link to the CRS root ("link"), also spelled with a trailing slash ("link/")
 	ViaLink string `json:"via_link,omitempty"`
-	Files   []CFile  `json:"files"`
-	Seq     []CInv   `json:"seq"`
-	Lab     []string `json:"labels,omitempty"`
+	// LinkDecoy: symbolic links to files that are no targets sit next to the targets
+	LinkDecoy bool     `json:"link_decoy,omitempty"`
+	Files     []CFile  `json:"files"`
+	Seq       []CInv   `json:"seq"`
+	Lab       []string `json:"labels,omitempty"`
 }
 
 func onlyDigits(v string) string {
@@ -111,6 +113,11 @@ var confOther = []string{"# ----------------------------------------------------
 func genCFile(t *rapid.T, path string, setup bool) CFile {
 	f := CFile{Path: path, FinalNL: rapid.IntRange(0, 5).Draw(t, "finalnl") != 0}
 	initial := rapid.SampledFrom([]string{"4.0.0", "3.3.2", "4.0.0-rc1", "4.9.1", "10.12.3"}).Draw(t, "initial")
+	if rapid.IntRange(0, 9).Draw(t, "oneline") == 0 {
+		// a file that is one single line (with or without its terminator)
+		f.Lines = []CLine{{K: rapid.SampledFrom([]string{"sig", "version", "other"}).Draw(t, "onelinek"), T: confOther[0], V: initial}}
+		return f
+	}
 	f.Lines = append(f.Lines, CLine{K: "other", T: confOther[0]})
 	if rapid.IntRange(0, 4).Draw(t, "hasver") != 0 {
 		f.Lines = append(f.Lines, CLine{K: rapid.SampledFrom([]string{"version", "version", "version-long"}).Draw(t, "verk"), V: initial})
@@ -148,6 +155,7 @@ func genC14(t *rapid.T) C14Case {
 	n := rapid.IntRange(1, 5).Draw(t, "nfiles")
 	c.DotRoot = rapid.IntRange(0, 5).Draw(t, "dotroot") == 0
 	c.ViaLink = rapid.SampledFrom([]string{"", "", "", "", "", "link", "link/"}).Draw(t, "vialink")
+	c.LinkDecoy = rapid.IntRange(0, 4).Draw(t, "linkdecoy") == 0
 	for i := 0; i < n; i++ {
 		c.Files = append(c.Files, genCFile(t, paths[i], strings.Contains(paths[i], "setup") || i == 0))
 		if rapid.IntRange(0, 7).Draw(t, "crlf") == 0 {
@@ -180,6 +188,9 @@ func genC14(t *rapid.T) C14Case {
 	}
 	if c.ViaLink != "" {
 		lab["root-reached-through-a-symbolic-link"] = true
+	}
+	if c.LinkDecoy {
+		lab["symbolic-links-next-to-targets"] = true
 	}
 	markers := 0
 	for _, f := range c.Files {
@@ -222,6 +233,13 @@ func checkC14(c C14Case) Outcome {
 			if err := os.Symlink(root, sb.Path("link")); err != nil {
 				panic(err)
 			}
+		}
+		if c.LinkDecoy {
+			// symbolic links that are no targets themselves and sort before the targets of their directory
+			_ = os.MkdirAll(root+"/rules", 0o755)
+			_ = os.WriteFile(root+"/README.md", []byte("read me\n"), 0o644)
+			_ = os.Symlink("../README.md", root+"/rules/AAA-README.md")
+			_ = os.Symlink("README.md", root+"/0-link.md")
 		}
 		return sb, root
 	}
